@@ -160,18 +160,34 @@ class SimA(SimBase):
                     await self.server.send(sid, self.cfg['connect_send'])
                 return self._h_connect(sid, environ)
 
+            async def pause(ev):
+                dt = self.suspend.get(ev)
+                if dt:
+                    await asyncio.sleep(dt)
+
             async def hm(sid, data):
-                return self._h_message(sid, data)
+                i = self._log_message(sid, data)
+                await pause('message')
+                self._maybe_boom('message', i)
 
             async def hd(sid, reason):
-                return self._h_disconnect(sid, reason)
+                i = self._log_disconnect(sid, reason)
+                await pause('disconnect')
+                self._maybe_boom('disconnect', i)
+
+            async def hd_legacy(sid):
+                await hd(sid, '?legacy')
             self.server.on('connect', hc)
             self.server.on('message', hm)
-            self.server.on('disconnect', hd)
+            self.server.on('disconnect', hd_legacy if self.legacy_disconnect
+                           else hd)
         else:
+            def hd_legacy_sync(sid):
+                self._h_disconnect(sid, '?legacy')
             self.server.on('connect', self._h_connect)
             self.server.on('message', self._h_message)
-            self.server.on('disconnect', self._h_disconnect)
+            self.server.on('disconnect', hd_legacy_sync
+                           if self.legacy_disconnect else self._h_disconnect)
         self.app = engineio.ASGIApp(self.server, **(app_kwargs or {}))
 
     @property
